@@ -249,6 +249,18 @@ def run(rep: common.Report, tier: str, seed: int, replay=None) -> int:
                     continue          # the run itself did not happen; nothing to save or load
                 rep.violation(f"saving / loading a solution raised {type(e).__name__}: {e}"[:200], case)
                 continue
+            # the per-step records stored on their own (DynamicsData.to_hdf5) and read back
+            try:
+                from tdgl.solution.data import DynamicsData as _DD
+                with h5py.File(os.path.join(td, f"dyn{mi}.h5"), "w") as f_:
+                    dyn.to_hdf5(f_.create_group("dynamics"))
+                with h5py.File(os.path.join(td, f"dyn{mi}.h5"), "r") as f_:
+                    dback = _DD.from_hdf5(f_["dynamics"])
+                badd = same_dynamics(dback, dyn)
+                if badd:
+                    rep.violation(f"per-step record '{badd}' differs after DynamicsData.to_hdf5 / from_hdf5", case)
+            except Exception as e:  # noqa: BLE001
+                rep.violation(f"DynamicsData.to_hdf5 / from_hdf5 raised {type(e).__name__}: {e}"[:160], case)
             if len(dyn.dt) == 0:
                 rep.not_shown("in-memory solution carries no dynamics; the round trip is vacuous", case)
             bad = same_dynamics(loaded.dynamics, dyn)
